@@ -6,10 +6,14 @@ From DashuGen Require Import RoundTables.
 Open Scope Z_scope.
 
 (** F37 RBig::to_float rounds twice: 9449/1000 at 2 decimal digits, HalfAway *)
-Theorem rat_to_fbig_refuted :
-  rat_to_fbig 10 2 MHalfAway 9449 1000 = AInexact 95 (-1) AddOne /\
+(** F37 (repaired): RBig::to_float keeps exactly p digits of the quotient and rounds once; the
+    former witnesses 9.449 -> 2 digits and 12.346 -> 3 digits under HalfAway *)
+Theorem rat_to_fbig_repaired_witness :
+  rat_to_fbig 10 2 MHalfAway 9449 1000 = AInexact 94 (-1) NoOp /\
   rat_to_fbig_spec 10 2 MHalfAway 9449 1000 = (94, -1, Lt) /\
-  rat_to_fbig_twice 10 2 MHalfAway 9449 1000 = true.
+  flag_of_error 1 Lt = Some NoOp /\
+  rat_to_fbig_twice 10 2 MHalfAway 9449 1000 = false /\
+  rat_to_fbig 10 3 MHalfAway 12346 1000 = AInexact 123 (-1) NoOp.
 Proof. vm_compute. repeat split; reflexivity. Qed.
 
 (** F38 FBig -> f32 in the subnormal range: 3 * 2^-151 is 0.75 of the smallest subnormal; the
